@@ -502,6 +502,7 @@ class GenerateTimeSequence(Contract):
         S.ensures(S.forall(0, n - 1, lambda i: res.at(i) < res.at(i + 1)), 'strictly_increasing')
         S.ensures(S.forall(0, n, lambda i: res.at(i) <= e), 'no_sample_beyond_end')
         S.ensures((res.at(n - 1) <= e) & (e - res.at(n - 1) <= EPS_END), 'ends_within_1e-6_of_end')
+        S.ensures(res.at(n - 1).eq(e) | res.at(n - 1).eq(s + f(n - 1) * dt), 'last_sample_is_the_end_or_a_grid_point')
         S.terms(0, -1, S.sk(0) + 1)
         seq = S.local('time_sequence') if S.mode == 'verify' else None
         S.loop(0, inv=lambda L: [
@@ -883,6 +884,7 @@ class TrajectoryLength3(Contract):
             ('range', (L.i >= 0) & (L.i <= L.time_sequence.size() - 1)),
             ('partial_sum_non_negative', L.total_length >= 0),
             ('nothing_added_on_an_empty_interval', implies(L.i.eq(0), L.total_length.eq(0))),
+
             ('table', table_inv(S)),
         ] + [('cache', p) for p in cache_inv(S, inst=[S.sk(0)])], variant=lambda L: L.time_sequence.size() - 1 - L.i,
             terms=lambda L: [L.i, L.i + 1])
